@@ -91,9 +91,9 @@ Definition rf_x : str := [104;116;116;112;58;47;47;104;47;98;47;120]%N.
 Definition rf_y : str := [104;116;116;112;58;47;47;104;47;98;47;121]%N.
 Definition rf_bad : str := [104;116;116;112;58;47;47;104;47;97;47;121]%N.
 Definition rf_docs : list (str * (bool * doc)) :=
-  [(rf_r, (false, DWsdl [[46;46;47;98;47;120]%N] []));
-   (rf_x, (false, DXsd (mkX (Some 1%N) [XInc [121]%N])));
-   (rf_y, (false, DXsd (mkX (Some 1%N) [])))].
+  [(rf_r, (false, DWsdl [[46;46;47;98;47;120]%N] [] []));
+   (rf_x, (false, DXsd (mkX (Some 1%N) [XInc [121]%N] [])));
+   (rf_y, (false, DXsd (mkX (Some 1%N) [] [])))].
 Theorem fetch_reachable_only_refuted : exists W root v,
   In v (map ev_url (i_log (snd (fst (client_load W root false io0))))) /\ ~ reach W root v.
 Proof.
@@ -109,7 +109,7 @@ Print Assumptions fetch_reachable_only_refuted.
 Definition ex_root : str := [104;116;116;112;58;47;47;104;47;114]%N.      (* http://h/r *)
 Definition ex_x : str := [104;116;116;112;58;47;47;104;47;120]%N.         (* http://h/x *)
 Definition ex_docs : list (str * (bool * doc)) :=
-  [(ex_root, (true, DWsdl [ex_x] [])); (ex_x, (false, DXsd (mkX (Some 1%N) [XInc ex_x])))].
+  [(ex_root, (true, DWsdl [ex_x] [] [])); (ex_x, (false, DXsd (mkX (Some 1%N) [XInc ex_x] [])))].
 Example failure_atomic_nonvacuous :
   let r := client_load (mkWorld ex_docs 0 (Some (1, FGarbage))) ex_root false io0 in
   i_fired (snd (fst r)) = true /\ fst (fst r) = Raised 1 /\
@@ -126,9 +126,9 @@ Definition cy_r : str := [104;116;116;112;58;47;47;104;47;114]%N.
 Definition cy_w : str := [104;116;116;112;58;47;47;104;47;119]%N.
 Definition cy_x : str := [104;116;116;112;58;47;47;104;47;120]%N.
 Definition cy_docs : list (str * (bool * doc)) :=
-  [(cy_r, (true, DWsdl [cy_w] [[mkX (Some 1%N) [XInc cy_x]]]));
-   (cy_w, (false, DWsdl [cy_r] []));
-   (cy_x, (false, DXsd (mkX (Some 1%N) [XInc cy_x])))].
+  [(cy_r, (true, DWsdl [cy_w] [[mkX (Some 1%N) [XInc cy_x] []]] []));
+   (cy_w, (false, DWsdl [cy_r] [] []));
+   (cy_x, (false, DXsd (mkX (Some 1%N) [XInc cy_x] [])))].
 Example cycle_nonvacuous :
   let r := client_load (mkWorld cy_docs 1 None) cy_r false io0 in
   fst (fst r) = Ok tt /\ snd r = true /\
